@@ -202,6 +202,33 @@ def answered (h : History) : Bool :=
 def holds (cfg : Cfg) (h : History) : Bool :=
   !(regular h && monotone h) || (boundHolds cfg h && spacedHolds cfg h && exactStrict cfg h)
 
+/-! ### Engine level, any history (request ids may arrive more than once: live system-flow increments)
+
+A necessary condition for a refusal that needs no reconstruction: a limiter call handled one at a time is
+refused only if some quota of its chain has no room — and what that quota has counted in its current window
+is at most what all *other* requests that arrived within the last window length count there, whether they
+were let through or not (the current window started less than one window length ago).  So a refused call
+for which every quota of the chain has room *even if every such arrival had been counted* is refused
+wrongly.  (Judged at engine level only; not among the theorems about the model.) -/
+
+/-- What the other requests that arrived in `(t − win, t]` count at level `(a, g)`. -/
+def arrivedAmt (cfg : Cfg) (before : History) (a : QId) (c : QuotaCfg) (g : Grp) (r : Rid) (t : Nat) : Nat :=
+  before.foldl (fun acc o =>
+    if (o.op.kind == .inc || o.op.kind == .req) && o.op.r != r && decide (t < o.op.t + c.win) && decide (o.op.t ≤ t)
+        && (chain cfg o.op.q).any (fun p => p.1 == a && groupOf p.2 o.op.h == g)
+    then acc + costOf c o.op.h else acc) 0
+
+/-- The refused limiter call `o` had room in every quota of its chain even counting every arrival. -/
+def refusedWithRoom (cfg : Cfg) (before : History) (o : Obs) : Bool :=
+  o.op.kind == .req && o.ans == some false &&
+  (chain cfg o.op.q).all fun (a, c) =>
+    decide (arrivedAmt cfg before a c (groupOf c o.op.h) o.op.r o.op.t + costOf c o.op.h ≤ c.max)
+
+/-- No limiter call of the history (oldest first) is refused with room everywhere; `before` = what precedes. -/
+def arrivalExactFrom (cfg : Cfg) : History → History → Bool
+  | _, [] => true
+  | before, o :: rest => !refusedWithRoom cfg before o && arrivalExactFrom cfg (before ++ [o]) rest
+
 /-- The observable history of a run of the model: every call paired with the model's answer. -/
 def observe (cfg : Cfg) : St → List Op → History
   | _, [] => []
